@@ -1,5 +1,7 @@
 use crate::runner::SubCheck;
 pub mod c01;
+pub mod c02;
+pub mod c03;
 pub mod c14;
 
 pub struct PropDef {
@@ -10,13 +12,15 @@ pub struct PropDef {
 }
 
 pub fn all_ids() -> Vec<&'static str> {
-    vec!["C01", "C14"]
+    vec!["C01", "C02", "C03", "C14"]
 }
 
 pub fn get(id: &str) -> Option<PropDef> {
     match id {
         "C01" => Some(c01::def()),
         "C14" => Some(c14::def()),
+        "C02" => Some(c02::def()),
+        "C03" => Some(c03::def()),
         _ => None,
     }
 }
